@@ -112,6 +112,11 @@ def main() -> None:
                     classes.add(r.type.fullname)
                     typeobj = True
         elif isinstance(t, mt.TupleType):
+            # a NamedTuple class of the package: its own name too (attribute reads on it resolve against that class)
+            fb = getattr(t, "partial_fallback", None)
+            fn_ = getattr(getattr(fb, "type", None), "fullname", "") if fb is not None else ""
+            if fn_ and fn_ != "builtins.tuple":
+                classes.add(fn_)
             classes.add("builtins.tuple")
         elif isinstance(t, mt.TypedDictType):
             classes.add("builtins.dict")
